@@ -217,3 +217,114 @@ Proof. reflexivity. Qed.
 Example c20_ex_cipher : let id := fun b : list N => b in
   (forall b, block8 b -> block8 (id b)) /\ (forall b, block8 b -> id (id b) = b).
 Proof. split; auto. Qed.
+
+(* ======================================================================================
+   Part B: a request received over gRPC is interpreted exactly as the same request received
+   as JSON, and every reply field that the protobuf schema defines carries the same value as
+   in the JSON rendering (server/pbconverter.go).  Messages are lists of typed leaves; the
+   converters are abstracted by a table probed from the current build on every run
+   (Gen/GenPb.v); the theorems hold for EVERY table that passes the decidable check
+   [table_ok] / [table_ok_srv], for every message (any number of leaves, any list lengths, any
+   map keys, any values).  The per-run obligations on the probed tables are in Gen/ObC20pb.v.
+   "=norm" is equality of [norm_msg]: ints modulo 2^32 in the int32 range, times truncated to
+   whole milliseconds and only after the epoch, enum spellings in upper case with the zero
+   value's spelling = absent, zero values = absent. *)
+From Coq Require Import String.
+From Tinode Require Import Sys.PbTable Sys.PbTableProofs.
+Local Open Scope Z_scope.
+
+Theorem pb_request_equiv : forall t, table_ok t = true -> forall m, wf_msg t m = true ->
+  norm_msg t (deser t (ser t m)) = norm_msg t m.
+Proof. exact request_equiv. Qed.
+Print Assumptions pb_request_equiv.
+
+(* the converters treat every leaf on its own ... *)
+Theorem pb_request_leafwise : forall t m, deser t (ser t m) = flat_map (rt_leaf t) m.
+Proof. exact rt_homomorphic. Qed.
+Print Assumptions pb_request_leafwise.
+
+(* ... so one good row guarantees its leaf in every message, whatever the other rows are *)
+Theorem pb_request_leaf : forall t p v, leaf_ok t (fst p) = true -> wf_leaf_t t (p, v) = true ->
+  norm_msg t (rt_leaf t (p, v)) = norm_msg t [(p, v)].
+Proof. exact request_leaf. Qed.
+Print Assumptions pb_request_leaf.
+
+Theorem pb_request_no_panic : forall t, table_ok t = true -> forall m, panics t m = false.
+Proof. exact table_ok_no_panic. Qed.
+Print Assumptions pb_request_no_panic.
+
+(* the premise is needed: a single Dropped row breaks the equivalence for every value that is not absent *)
+Theorem pb_table_ok_needed : forall sp k v v', norm k v = Some v' ->
+  let t := [(sp, k, Dropped)] in
+  norm_msg t (deser t (ser t [((sp, []), v)])) <> norm_msg t [((sp, []), v)].
+Proof. exact dropped_breaks. Qed.
+Print Assumptions pb_table_ok_needed.
+
+Theorem pb_reply_fields : forall t, table_ok_srv t = true ->
+  forall m p v k q f, In (p, v) m -> find_srow t (fst p) = Some (k, q, f) -> in_schema_f f = true ->
+  wf_leaf k v = true ->
+  forall v', norm k v = Some v' ->
+  exists w, In ((q, snd p), w) (ser_srv t m) /\ obind (bwd k w) (norm k) = Some v'.
+Proof. exact reply_fields. Qed.
+Print Assumptions pb_reply_fields.
+
+Theorem pb_reply_no_invention : forall t m q w, In (q, w) (ser_srv t m) ->
+  exists p v k f, In (p, v) m /\ find_srow t (fst p) = Some (k, fst q, f) /\ snd q = snd p /\ fwd k v = Some w.
+Proof. exact reply_no_invention. Qed.
+Print Assumptions pb_reply_no_invention.
+
+(* whole replies: reading the protobuf rendering back gives the normalised JSON rendering of the
+   fields the schema defines, leaf for leaf and in order *)
+Theorem pb_reply_read_back : forall t, table_ok_srv t = true -> forall m, wf_smsg t m = true ->
+  deser_srv t (ser_srv t m) = norm_srv t m.
+Proof. exact reply_read_back. Qed.
+Print Assumptions pb_reply_read_back.
+
+(* leaf kinds *)
+Theorem pb_leaf_roundtrip : forall k v, kind_ok k = true -> wf_leaf k v = true ->
+  obind (obind (fwd k v) (bwd k)) (norm k) = norm k v.
+Proof. exact leaf_roundtrip. Qed.
+Print Assumptions pb_leaf_roundtrip.
+
+Theorem pb_int32_roundtrip : forall z, -2147483648 <= z <= 2147483647 -> z <> 0 ->
+  obind (fwd KInt (LInt z)) (bwd KInt) = Some (LInt z).
+Proof. exact int32_roundtrip. Qed.
+Print Assumptions pb_int32_roundtrip.
+
+Theorem pb_int32_wrap : forall z, -2147483648 <= wrap32 z <= 2147483647 /\ (wrap32 z - z) mod 4294967296 = 0.
+Proof. intro z. split; [exact (wrap32_range z)|exact (wrap32_congr z)]. Qed.
+Print Assumptions pb_int32_wrap.
+
+Theorem pb_time_ms_roundtrip : forall ms, 0 < ms ->
+  obind (fwd KTime (LTime (ns_of_ms ms))) (bwd KTime) = Some (LTime (ns_of_ms ms)).
+Proof. exact time_ms_roundtrip. Qed.
+Print Assumptions pb_time_ms_roundtrip.
+
+Theorem pb_time_truncation : forall ns, 0 < ms_of_ns ns ->
+  obind (fwd KTime (LTime ns)) (bwd KTime) = Some (LTime (ns_of_ms (ms_of_ns ns))).
+Proof. exact time_truncation. Qed.
+Print Assumptions pb_time_truncation.
+
+Theorem pb_enum_bijective : forall e, enum_bij e = true -> forall n s, In (n, s) (e_deser e) -> n <> 0 ->
+  enum_ser e s = n /\ enum_deser e (enum_ser e s) = Some s /\ -2147483648 <= n <= 2147483647.
+Proof. exact enum_bij_sound. Qed.
+Print Assumptions pb_enum_bijective.
+
+Theorem pb_norm_idempotent : forall z ns,
+  obind (norm KInt (LInt z)) (norm KInt) = norm KInt (LInt z) /\
+  obind (norm KTime (LTime ns)) (norm KTime) = norm KTime (LTime ns).
+Proof. intros z ns. split; [exact (norm_idem_int z)|exact (norm_idem_time ns)]. Qed.
+Print Assumptions pb_norm_idempotent.
+
+(* non-vacuity: a small table with an enum passes the checks; a wide int wraps; a sub-millisecond time truncates *)
+Example c20_ex_pb_table :
+  let e := {| e_ser := [("auth"%string, 20); ("AUTH"%string, 20)]; e_deser := [(20, "AUTH"%string)]; e_zero := "NONE"%string |} in
+  let t := [("acc.authlevel"%string, KEnum e, Transformed XEnum); ("note.seq"%string, KInt, Transformed XInt32);
+            ("get.sub.ims"%string, KTime, Transformed XMs)] in
+  table_ok t = true /\
+  wf_msg t [(("acc.authlevel"%string, []), LStr "auth"%string)] = true /\
+  norm_msg t (deser t (ser t [(("acc.authlevel"%string, []), LStr "auth"%string); (("note.seq"%string, []), LInt 4294967301);
+                              (("get.sub.ims"%string, []), LTime 1700000000123456789)])) =
+    [(("acc.authlevel"%string, []), LStr "AUTH"%string); (("note.seq"%string, []), LInt 5);
+     (("get.sub.ims"%string, []), LTime 1700000000123000000)].
+Proof. vm_compute. repeat split. Qed.
